@@ -177,9 +177,72 @@ def extra_evidence(ctx, runs):
     return c23.extra_evidence(ctx, runs)
 
 
+def r06d(ctx, run):
+    """belief/use: every place that asks const_data for the value of an expression get_const called Const and then PANICS when there is
+    none (unwrap / expect / unwrap_or_else(panic) / a `None => unreachable!()` arm) states the belief 'const_data can evaluate everything
+    get_const accepts here'.  The belief is compared with the two functions: kinds get_const classifies Const (abstract evaluation, C15
+    R15.b) minus kinds const_data has a value-producing arm for."""
+    import c15
+    G = c15.G
+    fn, m, rows = c15.classifier_rows(ctx)
+    const_kinds = {k for k, cfg, t, res, p in rows if res == "Const" and not t}
+    cd = ctx.syn.fn("GlobalInferenceCtx::const_data", G)
+    ms = [x for x in synq.matches_on(cd.body) if canon(x["e"]).startswith("&self.world_bodies[")]
+    if len(ms) != 1:
+        raise LookupError("match in const_data")
+    arms = {}
+    for h, p, g, b, arm in synq.match_table(ms[0]):
+        if h:
+            arms[synq.last_seg(h)] = canon(b)
+    evaluable = {k for k, b in arms.items() if "Ok(Some(" in b or "self.const_data(" in b}
+    # kinds that denote types / functions / files are never asked for a value here (their positions are checked through const_ty)
+    TYPE_LIKE = {"Missing", "Lambda", "Import", "PrimitiveTy", "StructDecl", "Distinct", "EnumDecl", "ArrayDecl", "OptionalDecl", "ErrorUnionDecl", "Nil"}
+    NEVER_INT = {"StringLiteral", "FloatLiteral", "BoolLiteral", "CharLiteral", "ArrayLiteral"}
+    n = 0
+    for f in ctx.syn.fns_in(G):
+        if f.body is None or f.name == "const_data":
+            continue
+        for c in synq.mcalls(f.body, "const_data"):
+            n += 1
+            # how is the Option consumed?  walk up the method chain / enclosing match
+            chain_txt = ""
+            for x in walk(f.body):
+                if x.get("k") == "mcall" and any(y is c for y in walk(x["r"])) and x["ln"] >= c["ln"] and x["ln"] <= c["ln"] + 12:
+                    chain_txt += "." + x["m"] + "(" + canon(x["a"][0])[:40] + ")" if x["a"] else "." + x["m"] + "()"
+            enclosing = [x for x in walk(f.body) if x.get("k") == "match" and any(y is c for y in walk(x["e"]))]
+            panics_on_none = False
+            how = ""
+            if ".unwrap_or_else(" in chain_txt and "panic!" in chain_txt:
+                panics_on_none, how = True, "unwrap_or_else(panic!)"
+            elif chain_txt.count(".unwrap()") + chain_txt.count(".expect(") >= 2:
+                panics_on_none, how = True, "unwrapped twice"
+            for mm in enclosing:
+                for a in mm["arms"]:
+                    pc = canon(a["p"])
+                    bb = synq.strip_block(a["b"])
+                    if pc in ("None", "_") and bb.get("k") == "macro" and bb["name"].rsplit("::", 1)[-1] in ("unreachable", "panic", "todo"):
+                        panics_on_none, how = True, "`%s => %s!()`" % (pc, bb["name"])
+            target = canon(c["a"][1]) if len(c["a"]) > 1 else "?"
+            integer_position = any(("ComptimeResult::Integer" in canon(a["p"])) for mm in enclosing for a in mm["arms"])
+            want = (const_kinds - TYPE_LIKE - NEVER_INT) if integer_position else (const_kinds - TYPE_LIKE)
+            missing = sorted(want - evaluable)
+            site = f.site(c["ln"])
+            if not panics_on_none:
+                run.ok(site, "%s: const_data(%s) without a value is handled without panicking" % (f.qual, target))
+            elif not missing:
+                run.ok(site, "%s: const_data(%s) panics on None (%s) but every kind get_const accepts there has a value-producing arm" % (f.qual, target, how))
+            else:
+                run.finding(f.qual, "const-without-value:%s" % target, f.file, c["ln"],
+                            "%s asks const_data for the value of `%s` and panics when there is none (%s), but get_const accepts the kinds %s as constant while const_data "
+                            "has no arm that yields a value for them: the compiler panics on such a constant instead of reporting it" % (f.qual, target, how, missing))
+    if n < 3:
+        raise LookupError("const_data call sites: %d" % n)
+
+
 def rules(ctx):
     return [
         Rule("R06.a", "the parser cannot loop without consuming input and has no left recursion (C23 R23.a/b)", 40, r06a),
         Rule("R06.b", "every todo!()/unimplemented!() reachable from main is triaged; new reachable sites are violations", 3, r06b),
+        Rule("R06.d", "const evaluation sites that panic without a value only see kinds const_data can evaluate (classifier vs evaluator, belief/use)", 3, r06d),
         Rule("R06.c", "no assert that a named global is non-polymorphic while inference admits polymorphic functions as values", 6, r06c),
     ]
